@@ -391,7 +391,7 @@ func TestC11SuspendingDecorators(t *testing.T) {
 			case "get", "getComposite":
 				step := decoStep{Op: op}
 				step.Kind = rapid.SampledFrom([]string{"bytes", "casbytes", "error", "ctxerr", "reader", "reader", "chunkreader"}).Draw(rt, "kind")
-				step.Size = rapid.IntRange(0, 12).Draw(rt, "size")
+				step.Size = drawSize(rt)
 				if step.Kind == "reader" || step.Kind == "chunkreader" || step.Kind == "casbytes" {
 					switch rapid.IntRange(0, 3).Draw(rt, "trouble") {
 					case 0:
@@ -406,10 +406,17 @@ func TestC11SuspendingDecorators(t *testing.T) {
 				begin(step)
 				var b buffer.Buffer
 				backend.lastStream = nil
+				// The digest that is asked for has the size of the blob
+				// (boundary sizes included: the empty blob, one byte,
+				// the backend's short-read size, one 64 KiB chunk +/- 1).
+				wanted, _ := blobFor(step.Size, false)
 				if op == "get" {
-					b = ba.Get(ctxFor(step.Kind), someDigest)
+					b = ba.Get(ctxFor(step.Kind), wanted)
 				} else {
-					b = ba.GetFromComposite(ctxFor(step.Kind), someDigest, someDigest, nil)
+					b = ba.GetFromComposite(ctxFor(step.Kind), someDigest, wanted, nil)
+				}
+				if step.Size == 0 {
+					labels[op+":empty-blob"] = true
 				}
 				h.nextID++
 				o := &outstanding{id: h.nextID, b: b, size: step.Size, stream: backend.lastStream != nil}
@@ -426,6 +433,11 @@ func TestC11SuspendingDecorators(t *testing.T) {
 				end()
 			case "put", "findMissing", "getCapabilities", "getDirectory", "getTreeRoot", "getTreeChild":
 				step := decoStep{Op: op, Kind: rapid.SampledFrom([]string{"ok", "error", "ctxerr"}).Draw(rt, "kind")}
+				step.Size = drawSize(rt)
+				someDigest, _ := blobFor(step.Size, false)
+				if step.Size == 0 {
+					labels[op+":empty-blob"] = true
+				}
 				begin(step)
 				ctx := ctxFor(step.Kind)
 				seenBefore := h.backendSeen
@@ -466,7 +478,7 @@ func TestC11SuspendingDecorators(t *testing.T) {
 				}
 				switch step.Kind {
 				case "toByteSlice":
-					step.Arg = rapid.IntRange(0, 16).Draw(rt, "max")
+					step.Arg = rapid.SampledFrom([]int{0, 1, 8, 16, 1 << 20}).Draw(rt, "max")
 				case "readAt":
 					step.Arg = rapid.IntRange(0, 14).Draw(rt, "len")
 					step.Arg2 = rapid.IntRange(0, o.size).Draw(rt, "off")
@@ -559,6 +571,22 @@ func TestC11SuspendingDecorators(t *testing.T) {
 		}
 		rec.Case(h.script, streamTrouble || maxOutstanding >= 2, ls...)
 	})
+}
+
+// drawSize draws a blob size with the boundary values over-represented.
+func drawSize(rt *rapid.T) int {
+	switch rapid.IntRange(0, 19).Draw(rt, "sizeKind") {
+	case 0, 1, 2, 3:
+		return 0
+	case 4:
+		return 1
+	case 5:
+		return rapid.SampledFrom([]int{2, 3, 4}).Draw(rt, "sizeNearShortRead")
+	case 6:
+		return rapid.SampledFrom([]int{64*1024 - 1, 64 * 1024, 64*1024 + 1}).Draw(rt, "sizeNearChunk")
+	default:
+		return rapid.IntRange(0, 12).Draw(rt, "size")
+	}
 }
 
 func scriptJSON(v any) string {
